@@ -12,6 +12,9 @@ __all__ = ["unit", "native", "sym_int", "sym_bool", "sym_fixed", "sym_map", "ass
 
 UNITS = {}
 MODEL = {}
+INPUTS = {}       # name -> declaration, recorded on every native run
+LAZY = [None]     # random.Random instance => sym_map returns lazily materialised pseudo-random maps (adjudication mode)
+LAZY_MAPS = {}
 RESULTS = []      # (name, bool)
 NOTES = {}
 REACHED = []
@@ -27,6 +30,8 @@ def reset(model):
     del RESULTS[:]
     NOTES.clear()
     del REACHED[:]
+    INPUTS.clear()
+    LAZY_MAPS.clear()
 
 
 def unit(name, **meta):
@@ -49,6 +54,7 @@ def _default(lo, hi):
 
 
 def sym_int(name, lo=None, hi=None):
+    INPUTS[name] = ("int", lo, hi)
     v = MODEL.get(name)
     if v is None:
         v = _default(lo, hi)
@@ -56,14 +62,67 @@ def sym_int(name, lo=None, hi=None):
 
 
 def sym_bool(name):
+    INPUTS[name] = ("bool",)
     return bool(MODEL.get(name, False))
 
 
 def sym_fixed(name, ft):
+    INPUTS[name] = ("int", ft.minval, ft.maxval)
     return ft(int(MODEL.get(name, 0)))
 
 
+class _LazyMap(dict):
+    """dict whose entries are decided pseudo-randomly the first time a key is looked at (adjudication mode)"""
+
+    def __init__(self, name, wrap, lo, hi, rnd):
+        dict.__init__(self)
+        self._n, self._wrap, self._lo, self._hi, self._rnd = name, wrap, lo, hi, rnd
+        self._seen = {}
+        self._pre = {}
+
+    def _touch(self, k):
+        if k not in self._seen and not dict.__contains__(self, k):
+            present = self._rnd.random() < 0.7
+            self._seen[k] = present
+            if present:
+                lo = self._lo if self._lo is not None else 0
+                hi = self._hi if self._hi is not None else 255
+                v = self._rnd.choice([lo, hi, self._rnd.randint(lo, hi), self._rnd.randint(lo, hi)])
+                self._pre[k] = v
+                dict.__setitem__(self, k, self._wrap(v) if self._wrap is not None else v)
+        return None
+
+    def __contains__(self, k):
+        self._touch(k)
+        return dict.__contains__(self, k)
+
+    def __getitem__(self, k):
+        self._touch(k)
+        return dict.__getitem__(self, k)
+
+    def get(self, k, d=None):
+        self._touch(k)
+        return dict.get(self, k, d)
+
+    def __setitem__(self, k, v):
+        self._seen.setdefault(k, False)
+        dict.__setitem__(self, k, v)
+
+    def model_tables(self):
+        vals, pres = {}, {}
+        for k, p in self._seen.items():
+            pres[k] = p
+        return pres
+
+
 def sym_map(name, wrap=None, lo=None, hi=None, keys_lo=None, keys_hi=None):
+    if wrap is not None:
+        lo, hi = wrap.minval, wrap.maxval
+    INPUTS[name] = ("map", lo, hi)
+    if LAZY[0] is not None:
+        m = _LazyMap(name, wrap, lo, hi, LAZY[0])
+        LAZY_MAPS[name] = (m, {})
+        return m
     tbl = MODEL.get(name)
     ptbl = MODEL.get(name + "#p")
     vals = tbl[0] if tbl else {}
